@@ -19,6 +19,59 @@ GENERATORS = {"from_shape_fn", "from_shape_simple_fn", "from_fn", "mapv", "map",
               "position", "any", "all", "max_by", "min_by", "sum", "product"}
 
 
+ACCUMULATE = {"add_assign", "sub_assign", "push", "extend", "push_str", "insert", "add_residual"}
+
+
+def _accumulator_only(cb, upvar_idx):
+    """every use of captured variable #upvar_idx inside the closure body is as the receiver of an accumulate call"""
+    holders = set()        # locals holding (a reborrow of) the captured &mut
+    used = False
+    for _ in range(3):
+        for bi, si, st in cb.stmts():
+            rv = st["rv"]
+            pl = None
+            if rv["k"] in ("use", "cast") and rv["op"].get("k") in ("copy", "move"):
+                pl = rv["op"]["place"]
+            elif rv["k"] == "ref":
+                pl = rv["place"]
+            if pl is None:
+                continue
+            fl = [p for p in pl["p"] if isinstance(p, dict) and "f" in p]
+            if (pl["l"] == 1 and fl and fl[0]["f"] == upvar_idx) or (pl["l"] in holders):
+                # a read of an element / field of the captured value (beyond derefs) is a real read
+                extra = [p for p in pl["p"][(pl["p"].index(fl[0]) + 1) if pl["l"] == 1 else 0:] if p != "*"]
+                if extra:
+                    return False
+                if st["place"]["p"]:
+                    return False
+                holders.add(st["place"]["l"])
+    for bi, t in cb.calls():
+        for ai, a in enumerate(t["args"]):
+            if a.get("k") not in ("copy", "move"):
+                continue
+            pl = a["place"]
+            fl = [p for p in pl["p"] if isinstance(p, dict) and "f" in p]
+            direct = pl["l"] == 1 and fl and fl[0]["f"] == upvar_idx
+            if direct or pl["l"] in holders:
+                used = True
+                if ai != 0 or str(callee(t)[2]) not in ACCUMULATE:
+                    return False
+    # any other statement reading a holder (arithmetic, aggregate, index) is a read
+    for bi, si, st in cb.stmts():
+        rv = st["rv"]
+        ops = []
+        if rv["k"] == "binop":
+            ops = [rv["a"], rv["b"]]
+        elif rv["k"] == "unop":
+            ops = [rv["a"]]
+        elif rv["k"] == "agg":
+            ops = rv["ops"]
+        for o in ops:
+            if o.get("k") in ("copy", "move") and (o["place"]["l"] in holders):
+                return False
+    return used
+
+
 def run(F, scopes=None):
     r = RuleResult("R28", "PURE-GEN: per-element generators / mappers do not capture state by mutable reference")
     with open(os.path.join(HERE, "..", "tables", "r28.toml"), "rb") as f:
@@ -50,6 +103,11 @@ def run(F, scopes=None):
                 continue
             n_gen += 1
             muts = [c for c, m in zip(rv["kind"]["caps"], modes) if m == "mut"]
+            # a captured variable that the closure only ever *accumulates into* (`acc += x`, `v.push(x)`) and never reads does not
+            # make one element depend on another: a `for` loop with a running sum rewritten as `.map(|..| { acc += ..; .. })`
+            cb = F.body(rv["kind"].get("def") or "")
+            if muts and cb is not None:
+                muts = [c for c in muts if not _accumulator_only(cb, rv["kind"]["caps"].index(c))]
             if not muts:
                 continue
             n += 1
